@@ -225,6 +225,8 @@ class SubsequenceSearch:
             if self.use_lb:
                 lb = lb_keogh(self.query, series, **self.dists_options)
                 if lb > max_dist:
+                    if self.keep_all_distances or k is None:
+                        self.distances[idx] = np.inf
                     continue
             dist = distance(self.query, series, **self.dists_options)
             if k is not None:
